@@ -231,3 +231,55 @@ func VerifH_C05_Concurrent() {
 		verifrt.Assert(int(q3) != wire[0] && int(q3) != wire[1], "wire IDs are never reused")
 	}
 }
+
+// VerifH_C05_LateReply: the reply to an exchange arrives together with (or after) that exchange's
+// cancellation. Whatever the abandoned exchange did, a LATER exchange on the connection (the server never
+// answers it) must not be satisfied by that reply.
+func VerifH_C05_LateReply() {
+	verifrt.Unwind(80)
+	verifrt.SchedBound(2)
+	conn := newVNetConn()
+	t := &PipelineTransport{opts: PipelineOpts{IsTCP: verifrt.Bool("tcp")}}
+	c := newPipelineConn(conn, t)
+	ctxA, cancelA := verifrt.CtxWithCancel(nil)
+	resA := make(chan vExRes, 1)
+	go func() { r, err := c.exchange(ctxA, vQuery12(0x1111, 1)); resA <- vExRes{r, err} }()
+	q := <-conn.outbox
+	off := 0
+	if t.opts.IsTCP {
+		off = 2
+	}
+	wireA := int(q[off])<<8 | int(q[off+1])
+	reply := []byte{byte(wireA >> 8), byte(wireA), 0x80, 0x07, 0, 0, 0, 0, 0, 0, 0, 0}
+	if t.opts.IsTCP {
+		reply = append([]byte{0, 12}, reply...)
+	}
+	if verifrt.Bool("reply-first") {
+		conn.inbox <- reply
+		verifrt.Quiesce() // the read loop delivers it
+		cancelA()
+	} else {
+		cancelA()
+		conn.inbox <- reply
+	}
+	rA := <-resA
+	if rA.m != nil {
+		verifrt.Reach("A-got-reply")
+		verifrt.Assert(rA.m.Header.ID == 0x1111 && rA.m.Header.RCode == 7, "A's own reply")
+	} else {
+		verifrt.Reach("A-abandoned")
+	}
+	verifrt.Quiesce()
+	// exchange B: never answered, gives up
+	ctxB, cancelB := verifrt.CtxWithCancel(nil)
+	resB := make(chan vExRes, 1)
+	go func() { r, err := c.exchange(ctxB, vQuery12(0x2222, 2)); resB <- vExRes{r, err} }()
+	qb := <-conn.outbox
+	wireB := int(qb[off])<<8 | int(qb[off+1])
+	verifrt.Assert(wireB != wireA, "fresh wire ID")
+	verifrt.Quiesce()
+	cancelB()
+	rB := <-resB
+	verifrt.Reach("B-returned")
+	verifrt.Assert(rB.m == nil && rB.err != nil, "an exchange the server never answered returns no message (a late reply to an abandoned exchange cannot satisfy it)")
+}
